@@ -10,7 +10,7 @@ def run(c, replay):
     ov = c.harness_overlay("src/algo", FILES)
     b = c.build_test("src/algo", ov)
     c.bounds = dict(pair_histories="all ordered pairs over the case set (quick: every 7th predecessor x every victim), triples over a 60-case core",
-                    stale="4 poison patterns x {standard, small} slab", text_len=c.pick(4, 5))
+                    stale="4 poison patterns x {standard, small} slab", text_len=c.pick(5, 6))
     c.assumptions += ["a fresh call with a nil slab is the reference value of the function"]
     if replay:
         c.run_layer(b, "TestVerif_C05_stale_rep_pos", "stale-rep-pos", replay=replay, deadline_s=60)
